@@ -78,6 +78,41 @@ DocX(k) ==
   IN [pages |-> [x \in 1..np |-> PageX(x)], fields |-> fields, info |-> InfoOf(k + 3), cfg |-> Cfgs[(k % Len(Cfgs)) + 1]]
 NDocsX == Len(Cfgs) * (Stride + 1)
 
+(* ------------------------------ tagged documents (module Tagged) ------------------------------
+   Pages whose content is 1-3 marked-content sequences; a structure tree of 3-5 elements of varying shape whose
+   elements own those sequences across pages, in and out of page order, some sequences owned by nobody, some
+   elements owning nothing, a custom structure type, hostile attribute text.                                    *)
+MSeq(j) == IF j % 3 = 2
+           THEN <<[c |-> "begin_marked_content_with_actual_text", n |-> <<>>, name |-> Tags[(j % 3) + 1], t |-> ActualTexts[(j % Len(ActualTexts)) + 1]], W((j % 6) + 1), [c |-> "end_marked_content", n |-> <<>>]>>
+           ELSE <<[c |-> "begin_marked_content", n |-> <<>>, name |-> Tags[(j % 3) + 1]], W((j % 6) + 1), [c |-> "end_marked_content", n |-> <<>>]>>
+MCount(j) == (j % 3) + 1
+RECURSIVE TagProg(_, _)
+TagProg(j, n) == IF n = 0 THEN <<>> ELSE TagProg(j, n - 1) \o MSeq(j + n)
+TTypes == << <<68, 111, 99, 117, 109, 101, 110, 116>>, <<83, 101, 99, 116>>, <<80>>, <<72, 49>>, <<83, 112, 97, 110>> >>
+CustomType == <<77, 121, 32, 84, 121, 112, 101, 35, 49>>
+RECURSIVE RevSeq(_)
+RevSeq(q) == IF q = <<>> THEN <<>> ELSE Append(RevSeq(Tail(q)), q[1])
+DocT(k) ==
+  LET np == (k % 3) + 1
+      ne == 3 + ((k \div 3) % 3)
+      PJ(x) == k * 2 + x * 7
+      Pairs0 == UNION {{<<x, m>> : m \in 0..(MCount(PJ(x)) - 1)} : x \in 1..np}
+      ClassOf(pr) == 2 + ((k + 2 * pr[1] + pr[2]) % 4)          \* element 2, 3, 4 or (5 =) nobody
+      RECURSIVE Sorted(_)
+      Sorted(S) == IF S = {} THEN <<>> ELSE LET m == CHOOSE a \in S : \A b \in S : a[1] < b[1] \/ (a[1] = b[1] /\ a[2] <= b[2]) IN <<m>> \o Sorted(S \ {m})
+      McidsOf(i) == LET q == Sorted({pr \in Pairs0 : ClassOf(pr) = i /\ i <= 4}) IN IF k % 2 = 1 THEN RevSeq(q) ELSE q
+      ParentOf(i) == CASE i = 1 -> 0 [] i = 2 -> 1 [] i = 3 -> 2 [] i = 4 -> (IF k % 2 = 0 THEN 1 ELSE 2) [] OTHER -> (IF k % 4 < 2 THEN 3 ELSE 1)
+      TypeOf(i) == IF i = 4 /\ k % 3 = 0 THEN CustomType ELSE TTypes[i]
+      ElemOf(i) == LET base == [type |-> TypeOf(i), parent |-> ParentOf(i), mcids |-> IF i = 1 \/ i = 5 THEN <<>> ELSE McidsOf(i)] IN
+                   CASE i = 1 -> base @@ [lang |-> <<101, 110, 45, 85, 83>>]
+                     [] i = 2 -> base @@ [title |-> StrAt(k)]
+                     [] i = 3 -> base @@ [alt |-> StrAt(k + 7), actual |-> StrAt(k + 8)]
+                     [] i = 4 -> base
+                     [] OTHER -> base @@ [id |-> <<105, 100, 40, 49, 41>>]
+  IN [pages |-> [x \in 1..np |-> [w |-> 300, h |-> 400, rot |-> 0, kind |-> "p", prog |-> TagProg(PJ(x), MCount(PJ(x)))]],
+      tags |-> [i \in 1..ne |-> ElemOf(i)], info |-> InfoOf(k + 1), cfg |-> Cfgs[(k % Len(Cfgs)) + 1]]
+NDocsT == Len(Cfgs) * (Stride + 1)
+
 \* (the variable `done` is MCContent's)
 DInit == done = FALSE
 \* one document with more than a hundred compressible objects (a second object stream, a second hundred of entries)
@@ -87,7 +122,8 @@ DNext == /\ ~done
          /\ \A k \in 1..NDocs : PrintT(<<"REPLAY", ToJson(DocOf(k))>>)
          /\ PrintT(<<"REPLAY", ToJson(BigDoc)>>)
          /\ \A k \in 1..NDocsX : PrintT(<<"REPLAY", ToJson(DocX(k))>>)
-         /\ PrintT(<<"COUNT", ToJson([docs |-> NDocs, interactive |-> NDocsX, cfgs |-> Len(Cfgs)])>>)
+         /\ \A k \in 1..NDocsT : PrintT(<<"REPLAY", ToJson(DocT(k))>>)
+         /\ PrintT(<<"COUNT", ToJson([docs |-> NDocs, interactive |-> NDocsX, tagged |-> NDocsT, cfgs |-> Len(Cfgs)])>>)
          /\ done' = TRUE
 DSpec == DInit /\ [][DNext]_done
 =============================================================================
